@@ -11,6 +11,9 @@ restructuring of the Python therefore still check; a changed comparison or a dro
 -/
 namespace Mesa.Cells
 
+/-- closes a leaf after case splitting: by simplification with the hypotheses, else by linear arithmetic over them -/
+macro "xl_close" : tactic => `(tactic| first | (simp_all; done) | ((try simp_all) <;> omega))
+
 /-- a loop that appends at most one element per iteration is a `filterMap` -/
 theorem foldl_emit {α β : Type} (g : List β → α → List β) (f : α → Option β)
     (hg : ∀ acc x, g acc x = acc ++ (f x).toList) (acc : List β) (l : List α) :
@@ -35,7 +38,7 @@ theorem C07_gen_connect_single_cell_2d_eq_model (h w : Nat) (hh : 0 < h) (hw : 0
   · simp
   · rintro acc ⟨di, dj⟩
     cases torus <;>
-      simp [connect2d, Int.fmod_eq_emod_of_nonneg, h0, w0] <;> split <;> simp_all
+      simp [connect2d, Int.fmod_eq_emod_of_nonneg, h0, w0] <;> (repeat' split) <;> xl_close
 
 /-! ### the n-D path -/
 
@@ -63,7 +66,7 @@ theorem C07_gen_connect_single_cell_nd_eq_model (dims : List Nat) (_hpos : ∀ w
   · intro acc d
     cases torus <;>
       simp [connectNd, addv, wrapv, inb, map_zip_eq_zipWith, all_zip_eq_zipWith, List.zipWith_map_right,
-        Int.fmod_eq_emod_of_nonneg] <;> split <;> simp_all
+        Int.fmod_eq_emod_of_nonneg] <;> (repeat' split) <;> xl_close
 
 /-! ### the n-D offset tables (`_connect_cells_nd` of the Moore and von Neumann grids) -/
 
@@ -144,3 +147,84 @@ theorem C07_offsets_spec_generated (dims : List Int) (cells : List GenFn.CellNd)
     exact ⟨mem_mooreOffsets_norm _ d, mooreOffsets_nodup _⟩
   · rintro ⟨_, _, _, rfl⟩
     exact mem_vnOffsets_norm _ d
+
+/-! ### the 2-D paths (`_connect_cells_2d` of the three grid classes) and the whole connection structure -/
+
+/-- `_connect_cells_2d` of the Moore / von Neumann / hex grid as generated: every cell gets the model's `offsets2d` table
+    (hex: by the parity of `coordinate[1]`). -/
+theorem C07_gen_connect_cells_2d_eq_model (cells : List GenFn.Cell2d) :
+    GenFn.moore_connect_cells_2d ⟨cells⟩ = cells.map (fun c => (c, offsets2d .moore c.coordinate.2)) ∧
+    GenFn.vn_connect_cells_2d ⟨cells⟩ = cells.map (fun c => (c, offsets2d .vn c.coordinate.2)) ∧
+    GenFn.hex_connect_cells_2d ⟨cells⟩ = cells.map (fun c => (c, offsets2d .hex c.coordinate.2)) := by
+  refine ⟨?_, ?_, ?_⟩
+  · unfold GenFn.moore_connect_cells_2d
+    simp only []
+    rw [foldl_emit (f := fun c => some (c, offsets2d .moore c.coordinate.2))]
+    · simp
+    · intro acc c; simp [offsets2d, Gen.moore2d]
+  · unfold GenFn.vn_connect_cells_2d
+    simp only []
+    rw [foldl_emit (f := fun c => some (c, offsets2d .vn c.coordinate.2))]
+    · simp
+    · intro acc c; simp [offsets2d, Gen.vn2d]
+  · unfold GenFn.hex_connect_cells_2d
+    simp only []
+    rw [foldl_emit (f := fun c => some (c, offsets2d .hex c.coordinate.2))]
+    · simp
+    · intro acc c
+      have h2 : Int.fmod c.coordinate.2 2 = c.coordinate.2 % 2 := Int.fmod_eq_emod_of_nonneg _ (by omega)
+      simp only [offsets2d, hexTable, Gen.hexWhenOdd, Gen.hexWhenEven, h2, Option.toList]
+      (repeat' split) <;> xl_close
+
+/-- the `connect` calls of one cell, as the model lists a cell's `connections` (key ↦ cell) -/
+def asConn2 (l : List ((Int × Int) × (Int × Int))) : List (Key × Coord) := l.map fun (n, d) => ([d.1, d.2], [n.1, n.2])
+
+/-- **C07 about the code-derived text, 2-D grids**: running the generated `_connect_cells_2d` of the grid class and, for
+    every `(cell, offsets)` it hands on, the generated `_connect_single_cell_2d`, yields for the cell `(i, j)` exactly the
+    model's `gridConn` — the object of `C07_grid_connections`, `C07_grid_symmetric`, `C07_nbhd_spec`. -/
+theorem C07_grid_connections_generated_2d (h w : Nat) (hh : 0 < h) (hw : 0 < w) (torus : Bool) (i j : Int) :
+    (∀ k : GridKind, ∀ calls,
+      calls = (match k with
+        | .moore => GenFn.moore_connect_cells_2d ⟨[⟨(i, j)⟩]⟩
+        | .vn => GenFn.vn_connect_cells_2d ⟨[⟨(i, j)⟩]⟩
+        | .hex => GenFn.hex_connect_cells_2d ⟨[⟨(i, j)⟩]⟩) →
+      calls.flatMap (fun p => asConn2 (GenFn.connect_single_cell_2d ⟨((h : Int), (w : Int)), torus⟩ p.1 p.2)) =
+        gridConn k [h, w] torus [i, j]) := by
+  intro k calls hc
+  obtain ⟨h1, h2, h3⟩ := C07_gen_connect_cells_2d_eq_model [⟨(i, j)⟩]
+  have key : ∀ offs : List (Int × Int),
+      asConn2 (GenFn.connect_single_cell_2d ⟨((h : Int), (w : Int)), torus⟩ ⟨(i, j)⟩ offs) =
+        offs.filterMap fun (di, dj) => (connect2d h w torus i j di dj).map fun (ni, nj) => ([di, dj], [ni, nj]) := by
+    intro offs
+    rw [C07_gen_connect_single_cell_2d_eq_model h w hh hw, asConn2, List.map_filterMap]
+    congr 1
+    funext ⟨di, dj⟩
+    cases hcn : connect2d h w torus i j di dj <;> simp [hcn]
+  cases k <;> simp only [h1, h2, h3] at hc <;> subst hc <;> simp [key, gridConn]
+
+/-- **the same for n-D grids** (any number of axes other than 2, where `Grid._connect_cells` takes the n-D path). -/
+theorem C07_grid_connections_generated_nd (dims : List Nat) (hpos : ∀ w ∈ dims, 0 < w) (h2 : dims.length ≠ 2)
+    (torus : Bool) (c : List Int) :
+    ((GenFn.moore_connect_cells_nd ⟨dims.map fun (w : Nat) => (w : Int), [⟨c⟩]⟩).flatMap fun p =>
+        (GenFn.connect_single_cell_nd ⟨dims.map fun (w : Nat) => (w : Int), torus⟩ p.1 p.2).map fun (n, d) => (d, n)) =
+      gridConn .moore dims torus c ∧
+    ((GenFn.vn_connect_cells_nd ⟨dims.map fun (w : Nat) => (w : Int), [⟨c⟩]⟩).flatMap fun p =>
+        (GenFn.connect_single_cell_nd ⟨dims.map fun (w : Nat) => (w : Int), torus⟩ p.1 p.2).map fun (n, d) => (d, n)) =
+      gridConn .vn dims torus c := by
+  have key : ∀ offs : List (List Int),
+      ((GenFn.connect_single_cell_nd ⟨dims.map fun (w : Nat) => (w : Int), torus⟩ ⟨c⟩ offs).map fun (n, d) => (d, n)) =
+        offs.filterMap fun d => (connectNd dims torus c d).map fun n => (d, n) := by
+    intro offs
+    rw [C07_gen_connect_single_cell_nd_eq_model dims hpos, List.map_filterMap]
+    congr 1
+    funext d
+    cases hcn : connectNd dims torus c d <;> simp [hcn]
+  have hg : ∀ k, gridConn k dims torus c =
+      (offsetsNd k dims.length).filterMap fun d => (connectNd dims torus c d).map fun n => (d, n) := by
+    intro k
+    unfold gridConn
+    split
+    · simp at h2
+    · rfl
+  rw [C07_gen_moore_connect_cells_nd_eq_model, C07_gen_vn_connect_cells_nd_eq_model]
+  simp [key, hg, offsetsNd]
